@@ -262,7 +262,7 @@ def fn_expr(codes):
     return (mixes, (skipped,), viols, nex)
 
 
-RAW_KIDS = [["T", "a<b && c"], ["H", "x&&y</p>"], ["N", 3], ["T", ""], ["H", ""], ["T", "l1\nl2"]]
+RAW_KIDS = [["T", "a<b && c"], ["H", "x&&y</p>"], ["N", 3], ["T", ""], ["H", ""], ["T", "l1\nl2"], ["TS", "sub<x"]]
 
 
 def fn_rawtext(case):
@@ -283,6 +283,43 @@ def fn_rawtext(case):
     if in_div != exp2 and not viols:
         viols.append((f"raw-text-nested:{name}", f"<{name}> inside a div renders wrongly", {"observed": in_div, "expected": exp2}))
     return (any(k[0] == "H" for k in kids), got, viols, 2)
+
+
+class ReprReturningHTML:
+    """self-rendering object whose _repr_html_() hands back an HTML() object instead of a str."""
+
+    def __init__(self, markup):
+        self.markup = markup
+
+    def _repr_html_(self):
+        from htmltools import HTML
+        return HTML(self.markup)
+
+
+def fn_repr_type(case):
+    """an object whose _repr_html_() returns HTML(m) renders exactly like one returning the str m -
+    in particular nothing that was emitted BEFORE it may change."""
+    from htmltools import Tag, TagList
+    from ..spec import Repr
+    m, shape = case
+    viols = []
+
+    def mk(obj):
+        div = lambda *a: Tag("div", *a, _add_ws=True)          # noqa: E731
+        span = lambda *a: Tag("span", *a, _add_ws=False)       # noqa: E731
+        return {"after-block": lambda: TagList(div("a<"), obj).get_html_string(),
+                "in-block": lambda: div("t&", span("i"), obj, "z").get_html_string(),
+                "in-inline": lambda: span("x<", obj).get_html_string(),
+                "first": lambda: div(obj, div("b")).get_html_string(1, "\r\n"),
+                "twice": lambda: TagList(obj, "m&", obj).get_html_string(),
+                "render": lambda: div(div("p"), obj).render()["html"],
+                "in-script-sibling": lambda: div(Tag("script", "a<b"), obj).get_html_string()}[shape]()
+    a = mk(Repr(m))
+    b = mk(ReprReturningHTML(m))
+    if type(b) is not str or a != b:
+        viols.append((f"repr-returns-HTML:{shape}", "an object whose _repr_html_() returns HTML() renders differently "
+                      "from one returning the same markup as str", {"str": a, "HTML": str(b), "result_type": type(b).__name__}))
+    return (True, None, viols, 2)
 
 
 LONG_UNITS = ["<b>&amp;\"x\"</b>", "a&b<c>d ", "é<!--&-->"]
@@ -328,6 +365,10 @@ def plan(tier):
                         Const([(0, "\n"), (1, "\r\n")])),
              note="script/style x ws flag x every sequence of <= 3 children over {text, HTML(), number, empty, "
                   "multi-line} x 2 (indent, eol): byte equality with the reference layout"),
+        dict(kind="space", name="repr-returning-HTML-object", fn=fn_repr_type,
+             space=Prod(Const(["<b>x</b>", "&amp;<i>", "", "plain"]),
+                        Const(["after-block", "in-block", "in-inline", "first", "twice", "render", "in-script-sibling"])),
+             note="_repr_html_() returning an HTML() object vs the same markup as str, in 7 positions"),
         dict(kind="space", name="long-string-history", fn=fn_long,
              space=Prod(Const(LONG_UNITS), Const([1, 31, 32, 63, 64, 65, 127, 128, 129, 255, 256, 257, 1000, 4096, 70000]),
                         Const(["plain-first", "html-first", "multi-first"])),
